@@ -1,3 +1,15 @@
+//! vh-genesis: C39 (snapshot export + regenesis round trip) and C40 (interrupted
+//! genesis import) on the real fuel-core genesis exporter/importer.
+
+mod c39;
+mod c40;
+mod world;
+
 fn main() {
-    mcx::machinery_failure("not built yet");
+    let cli = mcx::Cli::parse();
+    match cli.property.as_str() {
+        "C39" => c39::main(&cli),
+        "C40" => c40::main(&cli),
+        other => mcx::machinery_failure(&format!("vh-genesis does not serve {other}")),
+    }
 }
